@@ -38,7 +38,12 @@ PROBES_REQUIRED = ["fs_vanished", "fs_fault_stat_EACCES", "special_enumerated"]
 KINDS = ["dangling", "loop", "fifo", "socket", "dotdot", "backslash", "stat-ENOENT",
          "stat-EACCES", "stat-EIO", "vanish-stat", "vanish-open", "dot-dangling", "dot-socket",
          "dot-fifo", "vanish-any", "vanish-sidecar", "sidecar-socket", "sidecar-dangling",
-         "sidecar-fifo", "dot-loop", "dot-stat-EACCES", "dot-stat-EIO", "dot-stat-ELOOP", "stat-ELOOP"]
+         "sidecar-fifo", "cache-fifo", "cache-socket", "cache-dangling", "cache-dir", "dot-loop", "dot-stat-EACCES", "dot-stat-EIO", "dot-stat-ELOOP", "stat-ELOOP",
+         "cap-fifo", "cap-socket", "cap-dangling", "zipcache-fifo", "zipcache-socket", "zip-emptylink",
+         "zip-badlinks", "gmap-vanish", "gmap-stat-EACCES", "gmap-stat-ENOENT"]
+# kinds that need the ZIP handler in the chain / a gophermap in the directory
+ZIP_KINDS = ("zipcache-fifo", "zipcache-socket", "zip-emptylink", "zip-badlinks")
+GMAP_KINDS = ("gmap-vanish", "gmap-stat-EACCES", "gmap-stat-ENOENT")
 PREFIXES = ["0", "a", "m", "zz", "B"]
 
 
@@ -109,6 +114,60 @@ def _bad_entry(rng, kind, pre, i):
             ent.append({"p": pre + name, "k": "fifo"})
         else:
             ent.append({"p": pre + name, "k": "symlink", "to": "nowhere-" + base})
+    elif kind.startswith("cache-"):
+        # the unservable entry carries the name of the directory cache file
+        name = ".cache.pygopherd.dir"
+        k2 = kind[6:]
+        # fresh (younger than the cache lifetime: the server would read it) or old (it would rewrite it)
+        age = rng.choice([10, 10, world.BASE_AGE])
+        if k2 == "fifo":
+            ent.append({"p": pre + name, "k": "fifo", "age": age})
+        elif k2 == "socket":
+            ent.append({"p": pre + name, "k": "socket", "age": age})
+        elif k2 == "dangling":
+            ent.append({"p": pre + name, "k": "symlink", "to": "nowhere-cache"})
+        else:
+            ent.append({"p": pre + name, "k": "dir", "age": age})
+    elif kind.startswith("cap-"):
+        # the UMN .cap/<name> sidecar of a healthy entry is a special file
+        name = ".cap"
+        ent.append({"p": pre + base + ".txt", "k": "file", "d": "has a special .cap file\n", "healthy": True})
+        ent.append({"p": pre + ".cap", "k": "dir"})
+        capf = pre + ".cap/" + base + ".txt"
+        if kind == "cap-fifo":
+            ent.append({"p": capf, "k": "fifo"})
+        elif kind == "cap-socket":
+            ent.append({"p": capf, "k": "socket"})
+        else:
+            ent.append({"p": capf, "k": "symlink", "to": "nowhere-" + base})
+    elif kind.startswith("zipcache-"):
+        # a healthy archive; the entry that cannot be served carries the name of its index cache
+        zname = base + ".zip"
+        ent.append({"p": pre + zname, "k": "zip", "healthy": True,
+                    "members": [["a.txt", "zip a\n"], ["d/", ""], ["d/b.txt", "zip b\n"]]})
+        name = ".cache.pygopherd.zip3." + zname
+        ent.append({"p": pre + name, "k": "fifo" if kind == "zipcache-fifo" else "socket",
+                    "age": rng.choice([10, 10, world.BASE_AGE])})
+    elif kind in ("zip-emptylink", "zip-badlinks"):
+        # an archive whose symbolic-link members cannot be resolved: the archive is the unservable entry
+        name = base + ".zip"
+        members = [["a.txt", "zip a\n"], ["d/", ""], ["d/b.txt", "zip b\n"]]
+        if kind == "zip-emptylink":
+            members.insert(rng.randrange(len(members) + 1), ["lnk", "", 0o120777])
+        else:
+            for j, to in enumerate(rng.sample(["nowhere", "../../etc/passwd", "/", "lnk0", "a.txt/x", "/abs/none",
+                                               ".", "d/../..", ""], 3)):
+                members.append(["lnk%d" % j, to, 0o120777])
+        ent.append({"p": pre + name, "k": "zip", "members": members})
+    elif kind.startswith("gmap-"):
+        # the directory is a Bucktooth gophermap directory; one linked file disappears (or cannot be
+        # inspected any more) after the handler has seen that it exists
+        name = base + rng.choice([".txt", ".html", ""])
+        ent.append({"p": pre + name, "k": "file", "d": "linked from the gophermap\n"})
+        if kind == "gmap-vanish":
+            faults.append({"op": "stat", "rel": pre + name, "kind": "vanish", "nth": rng.choice([1, 1, 2])})
+        else:
+            faults.append({"op": "stat", "rel": pre + name, "kind": kind[10:], "nth": rng.choice([1, 1, 2])})
     elif kind == "dot-loop":
         name = "." + base
         ent.append({"p": pre + name, "k": "symlink", "to": name})
@@ -143,6 +202,10 @@ def gen(seed, index, tier):
     bad = []
     badspec = []
     faults = []
+    if sum(1 for k in kinds if k.startswith("cache-")) > 1:
+        kinds = [kinds[0]] + ["fifo" if k.startswith("cache-") else k for k in kinds[1:]]
+    if sum(1 for k in kinds if k.startswith("cap-")) > 1:
+        kinds = [kinds[0]] + ["socket" if k.startswith("cap-") else k for k in kinds[1:]]
     for j, k in enumerate(kinds):
         name, ent, fl = _bad_entry(rng, k, pre, j)
         bad.append(name)
@@ -166,10 +229,24 @@ def gen(seed, index, tier):
             # metadata about the unservable entries is part of the faulty world, not of the reference
             badspec.append({"p": pre + ".names", "k": "file", "d": "\n".join(blocks)})
             kinds = kinds + ["link-block-names-it"]
+    handlers = rng.choice(["default", "default", "plaindir"])
+    if any(k in ZIP_KINDS for k in kinds):
+        handlers = "full"
+    elif any(k.startswith("cap-") for k in kinds):
+        handlers = "default"
+    if any(k in GMAP_KINDS for k in kinds):
+        # both worlds get the same gophermap: it links every generated name and the faulty ones
+        if handlers == "plaindir":
+            handlers = "default"
+        lines = ["iA gophermap directory\t\tnull.host\t1"]
+        for nm in names + [b for b, k in zip(bad, kinds) if k in GMAP_KINDS]:
+            lines.append("%sTitle of %s\t%s" % ("1" if "." not in nm else "0", nm, nm))
+        rng.shuffle(lines)
+        base.append({"p": pre + "gophermap", "k": "file", "d": "\n".join(lines) + "\n"})
     return {
         "spec": base, "bad_spec": badspec, "bad": bad, "kinds": kinds, "faults": faults,
         "dir": dname, "proto": rng.choice(proto.LISTING_PROTOCOLS),
-        "handlers": rng.choice(["default", "default", "plaindir"]),
+        "handlers": handlers,
         "servertype": rng.choice(["ThreadingTCPServer", "ForkingTCPServer"]),
         "sched_seed": rng.randrange(1 << 30),
     }
@@ -228,7 +305,7 @@ def execute(sc, tape=None):
             hits = sorted(h for h in hits if h[0] >= 0)
             culprit = hits[0][1] if hits else "+".join(sorted(set(sc["kinds"])))
             if not c.server_done():
-                viol = {"oracle": "answered", "signature": {"oracle": "answered", "kind": ("dot-fifo" if "dot-fifo" in sc["kinds"] else
+                viol = {"oracle": "answered", "signature": {"oracle": "answered", "kind": ("cache-fifo" if "cache-fifo" in sc["kinds"] else "zipcache-fifo" if "zipcache-fifo" in sc["kinds"] else "cap-fifo" if "cap-fifo" in sc["kinds"] else "dot-fifo" if "dot-fifo" in sc["kinds"] else
                                                                    "sidecar-fifo" if "sidecar-fifo" in sc["kinds"] else culprit),
                                                           "why": "connection never answered (worker blocked)"},
                         "detail": "state=%s blocked=%s" % (st, [a.label for a in run.sim.actors if a.state == "blocked"])}
@@ -256,7 +333,7 @@ def execute(sc, tape=None):
             counters = common.run_counters(run)
             if inconclusive:
                 counters["unparsed_success_no_verdict"] = 1
-        special = any(k in ("dot-loop", "dangling", "loop", "fifo", "socket", "dotdot", "backslash",
+        special = any(k.startswith(("cache-", "cap-", "zipcache-", "zip-")) or k in ("dot-loop", "dangling", "loop", "fifo", "socket", "dotdot", "backslash",
                             "dot-dangling", "dot-socket", "dot-fifo", "sidecar-socket",
                             "sidecar-dangling", "sidecar-fifo") for k in sc["kinds"])
         if special and counters.get("fs_listdir", 0):
